@@ -472,6 +472,13 @@ def cases(tier, seed):
             yield dict(role='acceptor', mode='prestart', burst=[a], fin=fin, seed=seed)
             for b in ('p:rq', 'p:abort2', 'p:unk', 'p:relrp'):
                 yield dict(role='acceptor', mode='prestart', burst=[a, b], fin=fin, seed=seed)
+    # the peer's A-ABORT (or its close) arrives WHILE a fragmented outgoing message is being
+    # sent: it is in the receive buffer before the k-th fragment is even produced.  An event
+    # that has happened is acted upon before (much) more local data is sent.
+    for role in ('acceptor', 'requestor'):
+        for ev in ('p:abort', 'p:fin'):
+            for k in (1, 2, 4):
+                yield dict(role=role, mode='causal', event=ev, k=k, n=10, seed=seed)
     n_walk = 1500 if tier == 'quick' else 60000
     for i in range(n_walk):
         yield dict(role='acceptor' if i % 2 else 'requestor', walk=40, mode='quiescent',
@@ -513,7 +520,62 @@ def _pick(model, rnd):
     return rnd.choices(en, w)[0]
 
 
+def run_causal(case):
+    from .. import lib
+    role = case['role']
+    drv = Driver(role, 'c05ca/%s/%s/%s' % (case['seed'], case['event'], case['k']))
+    viol = []
+    res = {'violations': viol, 'stats': {}}
+    try:
+        rig = drv.rig
+        for ev in (['p:rq', 'u:ac'] if role == 'acceptor' else ['u:assoc', 'p:ac']):
+            if drv.step(ev):
+                return {'violations': [], 'stats': {}, 'skipped': 'prefix failed'}
+        n, k = case['n'], case['k']
+        rig.wire_take()
+        mark = len(rig.wire_bytes)
+        produced = []
+
+        def gen():
+            for j in range(n):
+                if j == k:
+                    # by the time fragment k is asked for, the peer's PDU / close is already
+                    # in the provider's receive buffer
+                    if case['event'] == 'p:abort':
+                        rig.peer_bytes(prims.PEER['abort'])
+                    else:
+                        rig.peer_fin()
+                produced.append(j)
+                yield lib.pdata([(1, 2 if j == n - 1 else 0, b'frag-%02d-' % j + b'x' * 8)])
+        drv.history.append('~u:gen10+%s@%d' % (case['event'], k))
+        rig.user(gen())
+        rig.settle()
+        rig.wire_take()
+        pdus, rem = rc.parse_stream(rig.wire_bytes[mark:])
+        sent = len([p_ for p_ in pdus if p_['kind'] == 'P-DATA-TF'])
+        # fragments 0..k-1 were produced before the event existed; fragment k was being produced
+        # when it arrived; one more is tolerated
+        if sent > k + 2:
+            viol.append(_viol('P-DATA-sent-after-the-association-was-over event=%s %d of %d '
+                              'fragments went out although the peer\'s %s was waiting from '
+                              'fragment %d on' % (case['event'], sent, n,
+                                                  'A-ABORT' if case['event'] == 'p:abort' else 'close',
+                                                  k), role, drv, case))
+        inds = rig.take_indications()
+        if not any(getattr(x, 'pdu_type', None) == 7 for x in inds):
+            viol.append(_viol('user-not-told event=%s' % case['event'], role, drv, case))
+        if rig.state() != 'Sta1' or not rig.sock_gone():
+            viol.append(_viol('liveness not-idle-after-%s-during-transfer' % case['event'][2:],
+                              role, drv, case))
+        res['stats'] = {'probe.causal_fragments_sent': sent}
+        return _fin(res, drv, case, viol)
+    finally:
+        drv.close()
+
+
 def run_case(case):
+    if case.get('mode') == 'causal':
+        return run_causal(case)
     if case.get('mode') == 'concurrent':
         return run_concurrent(case)
     if case.get('mode') == 'writefault':
